@@ -221,6 +221,26 @@ def first_forms(t, xs):
     return None
 
 
+def check_first_next(rep, rule, key, b, sy, res, allowed, rw=None):
+    """where "the first entry" is taken with `it.next()`: the iterator `it` holds, at that first call, is the plain iterator over the
+    entries - not a skipped, reversed or otherwise adapted one (the forms without an explicit iterator name the collection directly)"""
+    seen = set()
+    for st, _ in res:
+        firsts = [e for e in st.effects if e[0] == "call" and R.is_next(e[1]) and e[2] and e[2][0][0] == "place"]
+        if firsts:
+            e = firsts[0]
+            for v in sy.before.get(("mcall",) + tuple(e[1:]), {("?",)}):
+                seen.add(fc.rewrite(v, rw) if rw else v)
+    if not seen:
+        return
+    # (taken from the far end is as good: "all entries agree" does not care which one is called the first)
+    allowed = set(allowed) | {call("std::iter::Iterator::rev", a_) for a_ in allowed}
+    bad = [v for v in seen if v not in allowed]
+    rep.check(rule, key + "/driver", not bad, loc=F.short_file(b["sp"]),
+              found="first entry taken from %s" % [S.tstr(v)[:160] for v in sorted(seen, key=repr)],
+              expected="the plain iterator over the entries: %s" % S.tstr(sorted(allowed, key=repr)[0])[:160])
+
+
 def check_remap_method(fx, rep, rule):
     """C04.3 / C02.6: all-entries-agree rule in both implementations"""
     # mapper
@@ -257,10 +277,9 @@ def check_remap_method(fx, rep, rule):
             def outcome(st, out):
                 return fc.rewrite(out[1], rw)
             bad, n = fc.compare_paths(res, ref, outcome, rw=rw)
-            # the iterator consumed is all_mappings of (class, method)
-            drv_ok = any(e[0] == "call" and e[1].endswith("Iterator::next") for st, _ in res for e in st.effects)
             R1.report_cmp(rep, rule, "%s/remap_method/mapper" % rule, fx.bodies[p], res, bad,
                           "first = entries.next()?; answer (class.original, first.original) iff all remaining entries have the same original name")
+            check_first_next(rep, rule, "%s/remap_method/mapper" % rule, fx.bodies[p], sy, res, {it0, call("std::iter::IntoIterator::into_iter", it0[2][0])})
     # cache
     p2 = A.one(rep, rule, "ProguardCache::remap_method", A.method(fx, A.CACHE, "remap_method"))
     helpers = R1.cache_helper_paths(fx)
@@ -309,6 +328,13 @@ def check_remap_method(fx, rep, rule):
             R1.report_cmp(rep, rule, "%s/remap_method/cache" % rule, fx.bodies[p2], res, bad,
                           "same rule on the equal-range slice; names compared by string-table offset (equal offsets <=> equal strings by "
                           "de-duplication)")
+            def rw_rng(t):
+                # (only the range abstraction: the values are recorded before any rewriting)
+                if t[0] == "call" and t[1] == sp["find_range_by_binary_search"]:
+                    return ("range", t[2][0])
+                return None
+            check_first_next(rep, rule, "%s/remap_method/cache" % rule, fx.bodies[p2], sy, res,
+                             {call("core::slice::iter", mk_payload(rng, "Some", "0")), call("std::iter::IntoIterator::into_iter", mk_payload(rng, "Some", "0"))}, rw=rw_rng)
             if "lines" in clos:
                 check_comparator(fx, rep, "C02.4" if rule.startswith("C02") else rule, "%s/comparator/remap_method" % rule, sy, clos["lines"], sb, "obfuscated_name_offset", meth)
 
